@@ -90,6 +90,9 @@ package recordio
 //@   ensures [high-water-mark-covers-the-write] r1 == nil ==> hw(w) == max(old(hw(w)), w.currentOffset)
 //@   ensures [closed-writer-rejects] (!old(w.open) || old(w.closed)) ==> r1 != nil && bwPos(w.bufWriter) == old(bwPos(w.bufWriter))
 //@   ensures [offset-follows-stream] r1 == nil ==> w.currentOffset - old(w.currentOffset) == bwPos(w.bufWriter) - old(bwPos(w.bufWriter))
+//@   exit [C20,C04:nil-record-stores-the-header-only] r1 == nil && isnil(record) ==> w.currentOffset == old(w.currentOffset) + callres(writeRecordHeaderV4, 0, 0)
+//@   exit [C20,C04:stored-payload-has-the-advertised-length] r1 == nil && !isnil(record) ==>
+//@        w.currentOffset == old(w.currentOffset) + callres(writeRecordHeaderV4, 0, 0) + (w.compressor != nil ? compressedSize : uncompressedSize)
 //@   call 0 of writeRecordHeaderV4: assert [C20,C04:header-carries-the-record-lengths] arg1 == len(record) && arg3 == isnil(record) &&
 //@        (w.compressor == nil ==> arg2 == 0)
 //@   modifies w.currentOffset, w.largestOffset, bwPos(w.bufWriter), bwFlushed(w.bufWriter), w.recordHeaderCache[*]
@@ -251,3 +254,8 @@ package recordio
 //@   ensures [fresh-non-nil-copy] !isnil(r0) && len(r0) == len(b) && content(r0) == old(content(b))
 //@   fresh r0
 //@   modifies nothing
+
+// C20: the compression codes the writer emits (the Kaitai schema lists the same literals, package gokaitai)
+//@ lemma writer_compression_codes:
+//@   props C20
+//@   show CompressionTypeNone == 0 && CompressionTypeGZIP == 1 && CompressionTypeSnappy == 2 && CompressionTypeLzw == 3
